@@ -10,11 +10,15 @@ EXTENDS Integers, Sequences, FiniteSets, TLC, Json, IOUtils
 
 Trace == ndJsonDeserialize(IOEnv.TRACE)
 
-VARIABLES l, tid, present, logStart, hw, start, lower, seg, bad, stalled, hangs, unresolved
-mvars == <<l, tid, present, logStart, hw, start, lower, seg, bad, stalled, hangs, unresolved>>
+VARIABLES l, tid, present, logStart, hw, start, lower, seg, bad, stalled, hangs, unresolved,
+          res,     \* connection -> the leader's first answer about the end of the log on that connection
+          known,   \* connections seen so far
+          old      \* connections that existed when the application last positioned the reader
+mvars == <<l, tid, present, logStart, hw, start, lower, seg, bad, stalled, hangs, unresolved, res, known, old>>
 
 Init == /\ l = 1 /\ tid = "" /\ present = {} /\ logStart = 0 /\ hw = 0 /\ start = -2 /\ lower = 0
         /\ seg = <<>> /\ bad = {} /\ stalled = FALSE /\ hangs = {} /\ unresolved = FALSE
+        /\ res = <<>> /\ known = {} /\ old = {}
 
 Range(s) == { s[i] : i \in DOMAIN s }
 PresentOf(log) == UNION { Range(log[i].present) : i \in DOMAIN log }
@@ -29,35 +33,51 @@ Upd(e) ==
          /\ tid' = e.id /\ present' = PresentOf(e.log) /\ logStart' = e.logStart /\ hw' = e.hw
          /\ start' = e.start /\ lower' = LowerFor(e.start, e.logStart, e.hw)
          /\ seg' = <<>> /\ bad' = {} /\ stalled' = FALSE /\ hangs' = {} /\ unresolved' = (e.start = -1)
-    [] e.ev = "setoffset.end" /\ e.err = "" ->
+         /\ res' = <<>> /\ known' = {} /\ old' = {}
+    \* the application positions the reader.  (Taken at the beginning of the call: the new background reader may connect,
+    \* resolve its position and fetch before the call is recorded as returned; the application makes no other call meanwhile.)
+    [] e.ev = "setoffset.begin" ->
          /\ start' = e.o /\ lower' = LowerFor(e.o, logStart, hw) /\ seg' = <<>>
          /\ unresolved' = (e.o = -1)
-         /\ UNCHANGED <<tid, present, logStart, hw, bad, stalled, hangs>>
-    \* "last" is resolved by the reader when it connects, not when SetOffset returns: the first fetch
-    \* request the leader receives afterwards shows what it resolved to (never below the end at the
-    \* time of the call, never beyond the current end)
-    [] e.ev = "fetch" /\ unresolved ->
+         /\ UNCHANGED <<tid, present, logStart, hw, bad, stalled, hangs, res, known, old>>
+    \* a new background reader replaces the previous one (Reader.start): the connections made so far are not its own
+    [] e.ev = "start" ->
+         /\ old' = known
+         /\ UNCHANGED <<tid, present, logStart, hw, start, lower, seg, bad, stalled, hangs, unresolved, res, known>>
+    \* the leader's first answer about the end of the log on a connection (reader.initialize asks before it seeks)
+    [] e.ev = "listoffsets" /\ e.at = -1 /\ e.code = 0 /\ e.k = 1 ->
+         /\ res' = IF e.conn \in DOMAIN res THEN res ELSE res @@ (e.conn :> e.off)
+         /\ known' = known \cup {e.conn}
+         /\ UNCHANGED <<tid, present, logStart, hw, start, lower, seg, bad, stalled, hangs, unresolved, old>>
+    \* "last" is resolved by the reader when it connects, not when SetOffset returns.  The reader is positioned by the
+    \* first connection of the new reader that gets as far as fetching: what the leader answered on THAT connection is
+    \* the start, once and for all -- connections made later (after a fault) do not move it, whatever was appended
+    \* meanwhile.  (Without a recorded answer: what the first fetch request asks for.)  It is never below the end at the
+    \* time of the call and never beyond the current end.
+    [] e.ev = "fetch" /\ unresolved /\ e.conn \notin old ->
          /\ unresolved' = FALSE
-         /\ lower' = IF e.off >= lower /\ e.off <= hw THEN e.off ELSE lower
-         /\ UNCHANGED <<tid, present, logStart, hw, start, seg, bad, stalled, hangs>>
+         /\ lower' = LET c == IF e.conn \in DOMAIN res THEN res[e.conn] ELSE e.off
+                      IN IF c >= lower /\ c <= hw THEN c ELSE lower
+         /\ known' = known \cup {e.conn}
+         /\ UNCHANGED <<tid, present, logStart, hw, start, seg, bad, stalled, hangs, res, old>>
     [] e.ev = "msg" ->
          /\ seg' = Append(seg, e.off)
          /\ bad' = IF e.ok THEN bad ELSE bad \cup {e.off}
-         /\ UNCHANGED <<tid, present, logStart, hw, start, lower, stalled, hangs, unresolved>>
+         /\ UNCHANGED <<tid, present, logStart, hw, start, lower, stalled, hangs, unresolved, res, known, old>>
     [] e.ev = "nomsg" ->
          /\ stalled' = (Owed # {} /\ ~unresolved)
-         /\ UNCHANGED <<tid, present, logStart, hw, start, lower, seg, bad, hangs, unresolved>>
+         /\ UNCHANGED <<tid, present, logStart, hw, start, lower, seg, bad, hangs, unresolved, res, known, old>>
     [] e.ev = "append" ->
          /\ present' = present \cup Range(e.batch.present)
          /\ hw' = Max(hw, e.batch.last + 1)
-         /\ UNCHANGED <<tid, logStart, start, lower, seg, bad, stalled, hangs, unresolved>>
+         /\ UNCHANGED <<tid, logStart, start, lower, seg, bad, stalled, hangs, unresolved, res, known, old>>
     [] e.ev = "logstart" ->
          /\ logStart' = e.o
-         /\ UNCHANGED <<tid, present, hw, start, lower, seg, bad, stalled, hangs, unresolved>>
+         /\ UNCHANGED <<tid, present, hw, start, lower, seg, bad, stalled, hangs, unresolved, res, known, old>>
     [] e.ev = "hang" ->
          /\ hangs' = hangs \cup {e.what}
-         /\ UNCHANGED <<tid, present, logStart, hw, start, lower, seg, bad, stalled, unresolved>>
-    [] OTHER -> UNCHANGED <<tid, present, logStart, hw, start, lower, seg, bad, stalled, hangs, unresolved>>
+         /\ UNCHANGED <<tid, present, logStart, hw, start, lower, seg, bad, stalled, unresolved, res, known, old>>
+    [] OTHER -> UNCHANGED <<tid, present, logStart, hw, start, lower, seg, bad, stalled, hangs, unresolved, res, known, old>>
 
 Next == l <= Len(Trace) /\ l' = l + 1 /\ Upd(Trace[l])
 Spec == Init /\ [][Next]_mvars
